@@ -662,6 +662,24 @@ theorem write_numPeriods (p p' : Plan) (k : Kind) (periods : List Int) (names : 
   cases h
   exact set_numPeriods _ _ _
 
+/-- **the order (and multiplicity) in which the dates are handed over is irrelevant**: a write depends on the period list only
+through the set of its elements -- a tuple or list in any order, or a forward / backward / stepped span enumerating the same dates
+(the enumeration itself is `Span` of property C09), register the same cells -/
+theorem write_periods_set (p : Plan) (k : Kind) (periods periods' : List Int) (names : List Nat) (st : Bool)
+    (h : ∀ t, t ∈ periods ↔ t ∈ periods') :
+    p.write k periods names st = p.write k periods' names st := by
+  have h1 : (periods.any fun t => t < 0 || (p.numPeriods : Int) ≤ t) = (periods'.any fun t => t < 0 || (p.numPeriods : Int) ≤ t) := by
+    rw [Bool.eq_iff_iff]
+    simp only [List.any_eq_true]
+    exact ⟨fun ⟨t, ht, hp⟩ => ⟨t, (h t).mp ht, hp⟩, fun ⟨t, ht, hp⟩ => ⟨t, (h t).mpr ht, hp⟩⟩
+  have h2 : ∀ t : Nat, (periods.map Int.toNat).contains t = (periods'.map Int.toNat).contains t := by
+    intro t
+    rw [Bool.eq_iff_iff]
+    simp only [List.contains_iff_mem, List.mem_map]
+    exact ⟨fun ⟨a, ha, e⟩ => ⟨a, (h a).mp ha, e⟩, fun ⟨a, ha, e⟩ => ⟨a, (h a).mpr ha, e⟩⟩
+  unfold Plan.write
+  simp only [h1, h2]
+
 /-- an invalid name or an out-of-span period rejects the whole call: nothing is written -/
 theorem write_rejects (p : Plan) (k : Kind) (periods : List Int) (names : List Nat) (st : Bool)
     (h : (names.any fun n => (p.get k).length ≤ n) = true ∨
